@@ -6,11 +6,14 @@ process count (DESIGN.md section 3, C05).
     FileSet.align/match/find/read/write run under the controlled processes
     and queues of mc/sched.py; every interleaving within a joint deviation
     bound (preemptions + delayed queue visibilities) is explored.
-(b) Inputs: all splits of a 6-slot timeline into files x max_interval x
-    period x bundle x output on the default schedule, and free-running under
-    the real multiprocessing (conformance of the environment model).
-Oracle: brute force over the concatenated data."""
-import copy
+(b) Inputs: all splits of a 6-slot timeline into files (with and without
+    uncovered slots) x max_interval x period x bundle x output, days
+    changing inside a worker, every single unreadable file, file names with
+    tight coverage and spellings of max_interval on the default schedule,
+    and free-running under the real multiprocessing (conformance of the
+    environment model).
+Oracle: brute force over the concatenated data; every point of a result must
+be attributed to the file that holds it."""
 import datetime as dt
 import itertools
 import os
@@ -26,21 +29,36 @@ PROP = "C05"
 LEVEL = "model_checking"
 RULE = ("(a) configurations = processes {1,2,3(,4)} x file layouts (1-3 "
         "results per worker, matches without collocation, far-away first "
-        "points) x bundle {None, primary, daily} x output {memory, "
+        "points, no two files matching, midnight between the results of one "
+        "worker) x bundle {None, primary, daily} x output {memory, "
         "Collocations fileset} x fault {none, each single unreadable file "
-        "with skip_file_errors, one without}; for each, every schedule of "
-        "parent + workers + bounded result queue with at most d deviations "
-        "(preemptions + held-back queue items; d = 2 for the smallest layout "
-        "of each family, 1 otherwise; thorough 3 / 2) is executed on the real "
-        "code. (b) all 32 splits of a 6-slot timeline into primary files x 8 "
-        "secondary splits x max_interval {half a slot, 1.5 slots} x 3 "
-        "periods x bundle x output x {1, 2} processes on the default "
-        "schedule (quick: three bundle/output/process combinations per "
-        "period; fileset output with 2 processes goes through "
-        "Collocations.search), 6 two-day layouts with max_interval 1 day / "
-        "26 h, plus real-multiprocessing runs. evaluations = executions; "
-        "non-trivial = an execution with >= 1 deviation, or (b) a case with "
-        ">= 1 collocation across a file boundary.")
+        "with skip_file_errors (also a secondary shared by two primaries, the "
+        "middle secondary of a bundle, a primary before a two-result bundle), "
+        "one without}; for each, every schedule of parent + workers + "
+        "bounded result queue with at most d deviations (preemptions + "
+        "held-back queue items; d = 2 for the smallest layout of each "
+        "family, 1 otherwise; thorough 3 / 2) is executed on the real code. "
+        "(b) on the default schedule: (32 splits of a 6-slot timeline into "
+        "primary files + 2 with uncovered slots) x 9 secondary splits x "
+        "max_interval {half a slot, 1.5 slots} x 3 periods x bundle x output "
+        "x {1, 2} processes (quick: three bundle/output/process combinations "
+        "per period; fileset output with 2 processes goes through "
+        "Collocations.search); 6 two-day layouts with max_interval 1 day / "
+        "26 h; 4 x 4 splits of three slots around midnight x max_interval x "
+        "bundle x output x processes (quick: bundle daily); 8 splits of a "
+        "4-slot timeline x 5 secondary splits, once with every single file "
+        "unreadable and skipped (quick: max_interval 1.5 slots, two "
+        "bundle/output/process combinations), once with file names that "
+        "state exactly first to last point and max_interval given as "
+        "timedelta and as number of seconds. Plus the configurations of (a) "
+        "free-running under the real multiprocessing. In every result each "
+        "point must name, in <fileset>/__file, the input file that holds "
+        "it. evaluations = executions; non-trivial = (a) an execution with "
+        ">= 1 deviation, a free-running run, (b) a case with >= 1 "
+        "collocation and more than one file in a set (or max_interval >= 1 "
+        "day), a case whose filesets have files in the period but no two "
+        "matching ones, a fault case whose unreadable file holds a point of "
+        ">= 1 collocation.")
 ASSUMPTIONS = [
     "environment model mc/sched.py (fork = deep copy of the arguments, "
     "bounded semaphore of the result queue, pickled items, unpicklable items "
@@ -52,7 +70,17 @@ ASSUMPTIONS = [
     "arguments) during schedule exploration (the schedule decides when, not "
     "what, a worker computes); every 50th execution runs unmemoised and must "
     "give the identical observation",
-    "start/end are always given (a period); <= 4 workers, <= 3 results each",
+    "start/end are always given (a period; the defaults None are outside the "
+    "statement); <= 4 workers, <= 3 results each",
+    "how results are grouped into bundles is not judged (the statement only "
+    "fixes the multiset): a daily bundle may span two days, the results of "
+    "a primary may come in two bundles",
+    "a loss is attributed to the open finding output-name-collision only if "
+    "what is left is everything expected but, of the results with one and "
+    "the same file name, exactly one complete result",
+    "max_distance is always '5 km' (its spellings and sizes are C04's); "
+    "files are pickles, so 'read back unchanged' does not exercise a file "
+    "format",
     "OS-level failures of real processes (kill -9) are not modelled",
 ]
 
@@ -114,8 +142,12 @@ def dataset(points):
         coords={"obs": labels})
 
 
-def file_cover(spec):
+def file_cover(side, spec, cover="slot"):
+    """Coverage a file name states: the whole slots of its points, or
+    ("tight") exactly first to last point (start == end for one point)."""
     slots = [(-s - 1 if s < 0 else s) for s in spec]
+    if cover == "tight":
+        return point_time(side, min(slots)), point_time(side, max(slots))
     return (T0 + min(slots) * SLOT,
             T0 + (max(slots) + 1) * SLOT - dt.timedelta(seconds=1))
 
@@ -145,16 +177,18 @@ def writer(data, file_info, **kw):
 class World:
     """The two input filesets of one configuration on tmpfs."""
 
-    def __init__(self, root, layout):
+    def __init__(self, root, layout, cover="slot"):
         from typhon.files import FileSet, FileHandler
         self.root = root
         self.layout = layout
         self.points = {"A": [], "B": []}
         self.files = {"A": [], "B": []}
+        self.cover = {}         # path -> (start, end) stated by the name
+        self.file_of = {}       # point id -> path
         for side in ("A", "B"):
             for fileno, spec in enumerate(layout[side]):
                 pts = make_points(side, spec, fileno)
-                t0, t1 = file_cover(spec)
+                t0, t1 = file_cover(side, spec, cover)
                 rel = fsbuild.render(TEMPLATE, t0, t1)
                 path = os.path.join(root, side, rel)
                 os.makedirs(os.path.dirname(path), exist_ok=True)
@@ -162,8 +196,10 @@ class World:
                     pickle.dump(dataset(pts), f)
                 for p in pts:
                     p["file"] = path
+                    self.file_of[p["id"]] = path
                 self.points[side].extend(pts)
                 self.files[side].append(path)
+                self.cover[path] = (t0, t1)
         self.A = FileSet(os.path.join(root, "A", TEMPLATE), name="A",
                          handler=FileHandler(reader=reader, writer=writer))
         self.B = FileSet(os.path.join(root, "B", TEMPLATE), name="B",
@@ -208,14 +244,39 @@ def pairs_of(ds):
     return [(int(x), int(y)) for x, y in zip(a, b)]
 
 
+def wrong_files(world, ds):
+    """Points of a result whose <group>/__file (one name per result, or one
+    per point after bundling) is not the input file that holds the point:
+    list of (point id, file named, file holding it)."""
+    import numpy as np
+    bad = []
+    for group in ("A", "B"):
+        ids = ds[group + "/id"].values
+        try:
+            named = np.broadcast_to(ds[group + "/__file"].values, ids.shape)
+        except (KeyError, ValueError) as exc:
+            bad.append((group, type(exc).__name__, None))
+            continue
+        bad.extend((int(i), os.path.basename(str(f)),
+                    os.path.basename(world.file_of[int(i)]))
+                   for i, f in zip(ids, named)
+                   if str(f) != world.file_of[int(i)])
+    return bad
+
+
 # ------------------------------------------------------------------ running
+
+def spelled(mi, spelling):
+    return {"min": "%d min" % mi, "timedelta": minutes(mi),
+            "seconds": 60 * mi}[spelling]
+
 
 def call(world, cfg, processes, output):
     """Runs collocate_filesets and returns the raw list of yielded items."""
     from typhon.collocations import Collocator
     kw = dict(start=cfg["start"], end=cfg["end"], processes=processes,
-              max_interval="%d min" % cfg["mi"], max_distance=MAX_DISTANCE,
-              bundle=cfg["bundle"], output=output)
+              max_interval=spelled(cfg["mi"], cfg.get("spelling", "min")),
+              max_distance=MAX_DISTANCE, bundle=cfg["bundle"], output=output)
     if cfg.get("skip"):
         kw["skip_file_errors"] = True
     with warnings.catch_warnings():
@@ -229,53 +290,89 @@ def call(world, cfg, processes, output):
 
 
 def observe(world, cfg, items, output, outdir):
-    """-> dict(pairs=sorted multiset, naming=[problems], crashed=n)"""
+    """-> dict(pairs=sorted multiset, problems=[(key, expected, observed)],
+    crashed=n)"""
     from typhon.collocations.collocator import ProcessCrashed
-    pairs, naming, crashed = [], [], 0
+    pairs, problems, crashed, results = [], [], 0, []
     if output is None:
         for it in items:
             if it is ProcessCrashed:
                 crashed += 1
                 continue
-            ds = it[0] if isinstance(it, tuple) else it
-            pairs.extend(pairs_of(ds))
+            results.append(it[0] if isinstance(it, tuple) else it)
     else:
         written = []
         for dirpath, _, names in os.walk(outdir):
             written.extend(os.path.join(dirpath, n) for n in names)
         written.sort()
         if items is SEARCHED:
-            items = yielded = written
+            items = written
         crashed = sum(1 for it in items if it is ProcessCrashed)
         yielded = sorted(os.fspath(i) for i in items
                          if i is not ProcessCrashed)
         if sorted(set(yielded)) != written:
-            naming.append(("yielded-names-differ-from-files-written",
-                           [os.path.basename(p) for p in yielded],
-                           [os.path.basename(p) for p in written]))
+            problems.append(("output/yielded-names-differ-from-files-written",
+                             [os.path.basename(p) for p in written],
+                             [os.path.basename(p) for p in yielded]))
         import numpy as np
         for path in written:
             with open(path, "rb") as f:
                 ds = pickle.load(f)
             got = output.read(path)
             if not got.equals(ds):
-                naming.append(("file-does-not-read-back-equal",
-                               os.path.basename(path), None))
-            pairs.extend(pairs_of(ds))
+                problems.append(("output/file-does-not-read-back-equal",
+                                 None, os.path.basename(path)))
+            results.append(ds)
             times = ds["A/time"].values[ds["Collocations/pairs"].values[0]]
             span = (np.min(times).astype("M8[s]").item(),
                     np.max(times).astype("M8[s]").item())
             name = fsbuild.render(OUT_TEMPLATE, span[0], span[1])
             if name != os.path.basename(path):
-                naming.append(("file-not-named-by-span-of-its-content",
-                               os.path.basename(path), name))
-    return dict(pairs=sorted(pairs), naming=naming, crashed=crashed)
+                problems.append((
+                    "output/file-not-named-by-span-of-its-content",
+                    name, os.path.basename(path)))
+    for ds in results:
+        pairs.extend(pairs_of(ds))
+        bad = wrong_files(world, ds)
+        if bad:
+            problems.append(("file-variable/point-attributed-to-wrong-file",
+                             bad[0][2], bad[0][:2]))
+    return dict(pairs=sorted(pairs), problems=problems, crashed=crashed)
+
+
+def matches_of(world, cfg):
+    """[(primary file, [secondary files])] in time order: the files of both
+    sets that overlap the period widened by max_interval, paired where their
+    coverages are at most max_interval apart."""
+    mi = minutes(cfg["mi"])
+    s, e = cfg["start"] - mi, cfg["end"] + mi
+
+    def in_window(path):
+        t0, t1 = world.cover[path]
+        return t0 < e and t1 >= s
+    out = []
+    for a in filter(in_window, world.files["A"]):
+        a0, a1 = world.cover[a]
+        bs = [b for b in filter(in_window, world.files["B"])
+              if world.cover[b][0] - mi <= a1 and world.cover[b][1] + mi >= a0]
+        if bs:
+            out.append((a, bs))
+    return out
+
+
+def no_match(world, cfg):
+    """Both filesets have files in the widened period, no two of them match."""
+    mi = minutes(cfg["mi"])
+    s, e = cfg["start"] - mi, cfg["end"] + mi
+    present = [any(world.cover[f][0] < e and world.cover[f][1] >= s
+                   for f in world.files[side]) for side in ("A", "B")]
+    return all(present) and not matches_of(world, cfg)
 
 
 def chunk_of(world, cfg, processes):
     """Which worker handles which primary file (np.array_split rule over the
     matched primaries in time order)."""
-    prim = matched_primaries(world, cfg)
+    prim = [a for a, _ in matches_of(world, cfg)]
     k = min(processes, len(prim)) or 1
     sizes = [len(prim) // k + (1 if i < len(prim) % k else 0)
              for i in range(k)]
@@ -287,48 +384,54 @@ def chunk_of(world, cfg, processes):
     return out
 
 
-def matched_primaries(world, cfg):
-    mi = minutes(cfg["mi"])
-    s, e = cfg["start"] - mi, cfg["end"] + mi
-    out = []
-    for spec, path in zip(world.layout["A"], world.files["A"]):
-        a0, a1 = file_cover(spec)
-        if not (a0 < e and a1 >= s):
-            continue
-        for spec_b in world.layout["B"]:
-            b0, b1 = file_cover(spec_b)
-            if not (b0 < e and b1 >= s):
+def expected_results(world, cfg, processes, exp):
+    """The results (one output file each) into which the expected pairs `exp`
+    fall, with the name of that file: every (primary file, secondary file)
+    with a pair is one result; a worker bundles consecutive results with the
+    same tag (bundle 'primary': the primary file, 'daily': the day of the
+    first primary point of the result). Only used to recognise a loss as the
+    known overwriting of equally named files: list of (name, pairs)."""
+    owner = chunk_of(world, cfg, processes)
+    by_files = {}
+    for a, b in exp:
+        by_files.setdefault((world.file_of[a], world.file_of[b]),
+                            []).append((a, b))
+    time_of = {p["id"]: p["time"] for p in world.points["A"]}
+    bundles, last = [], None
+    for afile, bfiles in matches_of(world, cfg):
+        for bfile in bfiles:
+            prs = by_files.get((afile, bfile))
+            if not prs:
                 continue
-            if b0 - mi <= a1 and b1 + mi >= a0:
-                out.append(path)
-                break
-    return out
-
-
-def result_names(world, cfg, owner):
-    """Expected output file name of every non-empty result, i.e. of every
-    (primary file, secondary file) pair, bundle of a primary or daily bundle
-    of a worker - used to explain a loss by a name collision: list of
-    (name, pairs)."""
-    bf = set(brute_force(world, cfg["mi"], cfg["start"], cfg["end"]))
-    groups = {}
-    for a in world.points["A"]:
-        for b in world.points["B"]:
-            if (a["id"], b["id"]) not in bf:
-                continue
-            if cfg["bundle"] is None:
-                key = (a["file"], b["file"])
-            elif cfg["bundle"] == "primary":
-                key = (a["file"],)
-            else:
-                key = (owner.get(a["file"]), a["time"].date())
-            groups.setdefault(key, []).append((a, b))
+            start = min(time_of[a] for a, _ in prs)
+            tag = (owner[afile],) + {
+                None: (afile, bfile), "primary": (afile,),
+                "daily": (start.date(),)}[cfg["bundle"]]
+            if tag != last:
+                bundles.append([])
+                last = tag
+            bundles[-1].extend(prs)
     out = []
-    for key, prs in groups.items():
-        times = [a["time"].replace(microsecond=0) for a, _ in prs]
+    for prs in bundles:
+        times = [time_of[a].replace(microsecond=0) for a, _ in prs]
         out.append((fsbuild.render(OUT_TEMPLATE, min(times), max(times)),
-                    sorted((a["id"], b["id"]) for a, b in prs)))
+                    sorted(prs)))
     return out
+
+
+def overwritten_only(results, got):
+    """`got` (duplicate-free, nothing invented) is everything expected except
+    that of the results with one and the same name exactly one is left,
+    complete."""
+    got = set(got)
+    by_name = {}
+    for name, prs in results:
+        by_name.setdefault(name, []).append(set(prs))
+    for groups in by_name.values():
+        left = [g for g in groups if g & got]
+        if len(left) != 1 or left[0] - got:
+            return False
+    return True
 
 
 def judge(world, cfg, processes, obs, fault_file=None):
@@ -336,7 +439,8 @@ def judge(world, cfg, processes, obs, fault_file=None):
     exp = brute_force(world, cfg["mi"], cfg["start"], cfg["end"])
     got = obs["pairs"]
     if obs.get("error"):
-        return ("schedule/" + obs["error"][0], exp, obs["error"][1])
+        part = "no-matching-files/" if no_match(world, cfg) else "schedule/"
+        return (part + obs["error"][0], exp, obs["error"][1])
     if fault_file is not None and cfg.get("skip"):
         exp = brute_force(world, cfg["mi"], cfg["start"], cfg["end"],
                           exclude_files=(fault_file,))
@@ -344,20 +448,10 @@ def judge(world, cfg, processes, obs, fault_file=None):
         # the failing worker may lose its remaining matches; nothing else
         # may be lost and nothing duplicated
         owner = chunk_of(world, cfg, processes)
-        bad_workers = set()
-        for a in world.points["A"]:
-            if a["file"] == fault_file:
-                bad_workers.add(owner.get(a["file"]))
-        if fault_file in world.files["B"]:
-            mi = minutes(cfg["mi"])
-            for spec, path in zip(world.layout["A"], world.files["A"]):
-                a0, a1 = file_cover(spec)
-                bspec = world.layout["B"][world.files["B"].index(fault_file)]
-                b0, b1 = file_cover(bspec)
-                if b0 - mi <= a1 and b1 + mi >= a0 and path in owner:
-                    bad_workers.add(owner[path])
-        file_of = {a["id"]: a["file"] for a in world.points["A"]}
-        must = [p for p in exp if owner.get(file_of[p[0]]) not in bad_workers]
+        bad_workers = {owner[a] for a, bs in matches_of(world, cfg)
+                       if fault_file == a or fault_file in bs}
+        must = [p for p in exp
+                if owner.get(world.file_of[p[0]]) not in bad_workers]
         if len(set(got)) != len(got):
             return ("fault/duplicated-collocation", exp, got)
         if set(got) - set(exp):
@@ -368,28 +462,16 @@ def judge(world, cfg, processes, obs, fault_file=None):
     if got != exp:
         if len(set(got)) != len(got):
             return ("collocation-duplicated", exp, got)
-        lost = sorted(set(exp) - set(got))
-        extra = sorted(set(got) - set(exp))
-        if extra:
+        if set(got) - set(exp):
             return ("collocation-invented", exp, got)
-        if cfg["output"] == "fileset":
-            names = result_names(world, cfg,
-                                 chunk_of(world, cfg, processes))
-            count = {}
-            for n, prs in names:
-                count[n] = count.get(n, 0) + 1
-            colliding = set()
-            for n, prs in names:
-                if count[n] > 1:
-                    colliding.update(prs)
-            if lost and set(lost) <= colliding:
-                return ("output-name-collision", exp, got)
+        if cfg["output"] == "fileset" and overwritten_only(
+                expected_results(world, cfg, processes, exp), got):
+            return ("output-name-collision", exp, got)
         if fault_file is not None:
             return ("fault/wrong-collocations-removed", exp, got)
         return ("collocation-lost", exp, got)
-    if obs["naming"]:
-        n = obs["naming"][0]
-        return ("output/" + n[0], n[2], n[1])
+    if obs["problems"]:
+        return obs["problems"][0]
     return None
 
 
@@ -447,19 +529,19 @@ def run_scheduled(ctx, world, cfg, processes, memo, horizon=3000):
                 obs["error"] = ("children-not-joined", alive)
         except sched.Deadlock as exc:
             s.finish()
-            obs = dict(pairs=[], naming=[], crashed=0,
+            obs = dict(pairs=[], problems=[], crashed=0,
                        error=("deadlock", str(exc)))
         except sched.Horizon as exc:
             s.finish()
-            obs = dict(pairs=[], naming=[], crashed=0,
+            obs = dict(pairs=[], problems=[], crashed=0,
                        error=("horizon", str(exc)))
         except Exception as exc:
             s.finish()
             if type(exc).__name__ == "NoFilesError":
                 # no file of a fileset in the period: nothing to collocate
-                obs = dict(pairs=[], naming=[], crashed=0)
+                obs = dict(pairs=[], problems=[], crashed=0)
             else:
-                obs = dict(pairs=[], naming=[], crashed=0,
+                obs = dict(pairs=[], problems=[], crashed=0,
                            error=("exception/" + type(exc).__name__,
                                   str(exc)[:200]))
     finally:
@@ -488,6 +570,17 @@ LAYOUTS = {
     # two results with the same primary time span (known finding with
     # fileset output and bundle=None): one primary point, two secondaries
     "collide": dict(A=[[0], [4]], B=[[0], [1], [4]], mi=15),
+    "shared+1": dict(A=[[0], [1], [3]], B=[[0, 1], [3]], mi=5),
+    # the second primary file collocates with both secondaries, the first
+    # matches only one of them
+    "skip+2": dict(A=[[0], [3]], B=[[2], [3]], mi=15),
+    # files of both sets in the period, no two of them within max_interval
+    "nomatch": dict(A=[[0]], B=[[5]], mi=5),
+    # midnight between slots 5 and 6: a worker's results change the day
+    # between two primaries / between two secondaries of one primary
+    "days": dict(A=[[5], [6], [7]], B=[[5], [6], [7]], mi=5),
+    "days1B": dict(A=[[5], [6], [7]], B=[[5, 6, 7]], mi=5),
+    "days1A": dict(A=[[5, 6], [7]], B=[[5], [6], [7]], mi=5),
 }
 
 
@@ -523,7 +616,24 @@ def schedule_configs(tier):
     out.append((base_cfg("2x2", "primary", "fileset", skip=True), 2, wide, 0))
     out.append((base_cfg("2x2", None, "memory", skip=False), 2, wide, 0))
     out.append((base_cfg("2x2", None, "memory", skip=False), 2, wide, 3))
+    # the unreadable file is a secondary shared by two primaries (read once
+    # per worker and kept for the second primary), the middle secondary of a
+    # bundle, a primary whose skipped match precedes a two-result bundle
+    out.append((base_cfg("shared+1", None, "memory", skip=True), 1, wide, 3))
+    out.append((base_cfg("shared+1", None, "memory", skip=True), 2, wide, 3))
+    out.append((base_cfg("1x3", "primary", "memory", skip=True), 1, wide, 2))
+    out.append((base_cfg("skip+2", "primary", "fileset", skip=True), 1, wide,
+                0))
+    out.append((base_cfg("nomatch"), 2, wide, None))
+    out.append((base_cfg("nomatch", "primary", "fileset"), 1, wide, None))
+    out.append((base_cfg("days", "daily", "fileset"), 1, wide, None))
+    out.append((base_cfg("days1B", "daily", "fileset"), 1, wide, None))
+    out.append((base_cfg("days1B", "daily", "memory"), 2, wide, None))
+    out.append((base_cfg("days1A", "daily", "fileset"), 1, wide, None))
     if tier == "thorough":
+        out.append((base_cfg("days", "daily", "memory"), 2, 1, None))
+        out.append((base_cfg("days", "daily", "fileset"), 2, 1, None))
+        out.append((base_cfg("days1A", "daily", "fileset"), 2, 1, None))
         out.append((base_cfg("2x3"), 2, 1, None))
         out.append((base_cfg("2x3", "primary", "fileset"), 2, 1, None))
         out.append((base_cfg("4x1"), 4, 1, None))
@@ -606,21 +716,24 @@ def explore_config(res, world, cfg, processes, bound, fault, part=0,
 
 # ------------------------------------------------------------ part (b)
 
-def compositions(n):
-    """All splits of slots 0..n-1 into consecutive files."""
+def compositions(n, first=0):
+    """All splits of slots first..first+n-1 into consecutive files."""
     out = []
     for cuts in itertools.product([0, 1], repeat=n - 1):
-        files, cur = [], [0]
+        files, cur = [], [first]
         for i, c in enumerate(cuts):
             if c:
                 files.append(cur)
                 cur = []
-            cur.append(i + 1)
+            cur.append(first + i + 1)
         files.append(cur)
         out.append(files)
     return out
 
 
+# primary files that leave slots uncovered: secondary files without partner,
+# and with the secondaries [[2], [3]] no two files within half a slot
+A_GAPS = [[[0], [5]], [[0, 1], [4, 5]]]
 B_SPLITS = [
     [[0], [1], [2], [3], [4], [5]],
     [[0, 1], [2, 3], [4, 5]],
@@ -629,7 +742,15 @@ B_SPLITS = [
     [[0], [1, 2, 3, 4], [5]],
     [[0, 1], [4, 5]],                 # gap
     [[0], [2], [4]],                  # gaps
+    [[2], [3]],                       # nothing at the ends
     [[-1, 0, 1], [2, -4, 3], [4, 5]],   # far-away points first / inside
+]
+SMALL_B = [
+    [[0], [1], [2], [3]],
+    [[0, 1], [2, 3]],
+    [[0, 1, 2, 3]],
+    [[0], [1, 2], [3]],
+    [[0], [3]],                       # gap
 ]
 PERIODS = {
     "all": (T0 - dt.timedelta(minutes=1), T0 + 7 * SLOT),
@@ -637,15 +758,13 @@ PERIODS = {
             T0 + 4 * SLOT + dt.timedelta(minutes=5)),
     "empty": (T0 + 20 * SLOT, T0 + 21 * SLOT),
     "long": (T0 - dt.timedelta(minutes=1), T0 + 160 * SLOT),
+    "days": (T0 + 4 * SLOT, T0 + 8 * SLOT),
 }
-
-
-def input_cases(tier):
-    comps = compositions(6)
-    for ai, a in enumerate(comps):
-        for bi, b in enumerate(B_SPLITS):
-            yield ai, a, bi, b
-
+ALL_VARIANTS = [(bundle, output, processes)
+                for bundle in (None, "primary", "daily")
+                for output in ("memory", "fileset") for processes in (1, 2)]
+QUICK_VARIANTS = [(None, "memory", 1), ("primary", "memory", 2),
+                  ("daily", "fileset", 2)]
 
 # max_interval of a day and more (the days of a timedelta are not in its
 # .seconds): two files 143 / 150 slots apart whose only points collocate
@@ -657,61 +776,107 @@ LONG_CASES = [
 ]
 
 
-def one_input_case(res, world, a, b, mi, pname, bundle, output, processes):
+def input_worlds(tier):
+    """-> list of (A files, B files, coverage, cases of that world); a case
+    is (max_interval minutes, its spelling, period, bundle, output,
+    processes, index of the unreadable file or None)."""
+    quick = tier == "quick"
+    out = []
+    for a in compositions(6) + A_GAPS:
+        for b in B_SPLITS:
+            cases = []
+            for mi in (5, 15):
+                for pname in ("all", "cut", "empty"):
+                    variants = ALL_VARIANTS
+                    if quick:
+                        variants = QUICK_VARIANTS
+                        if pname == "empty":
+                            variants = variants[:1] if mi == 5 else []
+                    cases += [(mi, "min", pname) + v + (None,)
+                              for v in variants]
+            out.append((a, b, "slot", cases))
+    for a, b, mi in LONG_CASES:
+        out.append((a, b, "slot", [
+            (mi, "min", "long") + v + (None,)
+            for v in [(None, "memory", 1), ("primary", "memory", 2),
+                      ("daily", "fileset", 2), (None, "fileset", 1)]]))
+    # midnight lies between slots 5 and 6
+    for a in compositions(3, first=5):
+        for b in compositions(3, first=5):
+            variants = [v for v in ALL_VARIANTS
+                        if not quick or v[0] == "daily"]
+            out.append((a, b, "slot", [(mi, "min", "days") + v + (None,)
+                                       for mi in (5, 15) for v in variants]))
+    for a in compositions(4):
+        for b in SMALL_B:
+            # every single unreadable file, skipped
+            variants = [(None, "memory", 2), ("primary", "fileset", 1)] \
+                if quick else ALL_VARIANTS
+            out.append((a, b, "slot", [
+                (mi, "min", "all") + v + (f,)
+                for mi in ((15,) if quick else (5, 15)) for v in variants
+                for f in range(len(a) + len(b))]))
+            # file names that state exactly first to last point; other
+            # spellings of max_interval
+            variants = QUICK_VARIANTS[1:] if quick else ALL_VARIANTS
+            out.append((a, b, "tight", [
+                (mi, spelling, "all") + v + (None,)
+                for mi in (5, 15) for spelling in ("timedelta", "seconds")
+                for v in variants]))
+    return out
+
+
+CASE_FIELDS = ("mi", "spelling", "period", "bundle", "output", "processes",
+               "fault")
+
+
+def input_cfg(case):
+    mi, spelling, pname, bundle, output, processes, fault = case
     start, end = PERIODS[pname]
-    cfg = dict(layout=None, mi=mi, bundle=bundle, output=output, skip=False,
-               start=start, end=end,
-               via_search=(output == "fileset" and processes == 2))
-    exp = brute_force(world, mi, start, end)
-    res.case(nontrivial=bool(exp) and (len(a) > 1 or len(b) > 1
-                                       or pname == "long"))
-    obs = run_default(world, cfg, processes)
-    bad = judge(world, cfg, processes, obs)
-    if bad is not None:
-        res.violation(
-            bad[0], dict(kind="inputs", a=a, b=b, mi=mi, period=pname,
-                         bundle=bundle, output=output, processes=processes,
-                         via_search=cfg["via_search"]),
-            bad[1], bad[2])
-    return (a, b, mi, pname, bundle, output, processes)
+    return dict(layout=None, mi=mi, spelling=spelling, bundle=bundle,
+                output=output, skip=fault is not None, start=start, end=end,
+                via_search=(output == "fileset" and processes == 2))
+
+
+def one_input_case(world, case):
+    """-> (whether the case is non-trivial, verdict of judge, observation)"""
+    cfg = input_cfg(case)
+    processes, fault = case[5], case[6]
+    exp = brute_force(world, cfg["mi"], cfg["start"], cfg["end"])
+    FAIL.clear()
+    fault_file = None
+    if fault is None:
+        nontrivial = bool(exp) and (
+            len(world.files["A"]) > 1 or len(world.files["B"]) > 1
+            or case[2] == "long") or no_match(world, cfg)
+    else:
+        fault_file = (world.files["A"] + world.files["B"])[fault]
+        FAIL.add(fault_file)
+        nontrivial = exp != brute_force(world, cfg["mi"], cfg["start"],
+                                        cfg["end"], (fault_file,))
+    try:
+        obs = run_default(world, cfg, processes)
+    finally:
+        FAIL.clear()
+    return nontrivial, judge(world, cfg, processes, obs, fault_file), obs
 
 
 def run_inputs(res, shard):
     _, tier, part, nparts = shard
     root = driver.fresh_dir("c05b")
     last = None
-    if part == "long":
-        for k, (a, b, mi) in enumerate(LONG_CASES):
-            world = World(os.path.join(root, "long%d" % k), dict(A=a, B=b))
-            for bundle, output, processes in [
-                    (None, "memory", 1), ("primary", "memory", 2),
-                    ("daily", "fileset", 2), (None, "fileset", 1)]:
-                last = one_input_case(res, world, a, b, mi, "long", bundle,
-                                      output, processes)
-        cases = []
-    else:
-        cases = list(input_cases(tier))[part::nparts]
-    for ai, a, bi, b in cases:
-        world = World(os.path.join(root, "a%db%d" % (ai, bi)),
-                      dict(A=a, B=b))
-        for mi in (5, 15):
-            for pname in ("all", "cut", "empty"):
-                if tier == "quick":
-                    variants = [(None, "memory", 1), ("primary", "memory", 2),
-                                ("daily", "fileset", 2)]
-                    if pname == "empty":
-                        variants = variants[:1] if mi == 5 else []
-                else:
-                    variants = [(b_, o, k) for b_ in (None, "primary", "daily")
-                                for o in ("memory", "fileset")
-                                for k in (1, 2)]
-                for bundle, output, processes in variants:
-                    last = one_input_case(res, world, a, b, mi, pname, bundle,
-                                          output, processes)
+    for k, (a, b, cover, cases) in enumerate(
+            input_worlds(tier)[part::nparts]):
+        world = World(os.path.join(root, "w%d" % k), dict(A=a, B=b), cover)
+        for case in cases:
+            nontrivial, bad, _ = one_input_case(world, case)
+            res.case(nontrivial=nontrivial)
+            last = dict(zip(CASE_FIELDS, case), kind="inputs", a=a, b=b,
+                        cover=cover)
+            if bad is not None:
+                res.violation(bad[0], last, bad[1], bad[2])
     if last:
-        res.sample(dict(kind="inputs", A_files=last[0], B_files=last[1],
-                        max_interval_min=last[2], period=last[3],
-                        bundle=last[4], output=last[5], processes=last[6]))
+        res.sample(last)
     return res
 
 
@@ -765,12 +930,12 @@ def run_real(world, cfg, processes, timeout=90):
             pass
     os.waitpid(pid, 0)
     if hung:
-        return dict(pairs=[], naming=[], crashed=0,
+        return dict(pairs=[], problems=[], crashed=0,
                     error=("hang", "no result within %d s" % timeout))
     try:
         return pickle.loads(b"".join(chunks))
     except Exception as exc:
-        return dict(pairs=[], naming=[], crashed=0,
+        return dict(pairs=[], problems=[], crashed=0,
                     error=("child-died", repr(exc)[:100]))
 
 
@@ -785,8 +950,8 @@ def _run_real_inner(world, cfg, processes):
         return observe(world, cfg, items, output, outdir)
     except Exception as exc:
         if type(exc).__name__ == "NoFilesError":
-            return dict(pairs=[], naming=[], crashed=0)
-        return dict(pairs=[], naming=[], crashed=0,
+            return dict(pairs=[], problems=[], crashed=0)
+        return dict(pairs=[], problems=[], crashed=0,
                     error=("exception/" + type(exc).__name__,
                            str(exc)[:200]))
     finally:
@@ -842,7 +1007,6 @@ def shards(tier, seed):
     n = 48 if tier == "quick" else 128
     for p in range(n):
         out.append(("inputs", tier, p, n))
-    out.append(("inputs", tier, "long", n))
     out.append(("real", tier))
     return out
 
@@ -878,13 +1042,9 @@ def finish(tier, merged):
 def replay(case):
     root = driver.fresh_dir("c05r")
     if case["kind"] == "inputs":
-        world = World(root, dict(A=case["a"], B=case["b"]))
-        start, end = PERIODS[case["period"]]
-        cfg = dict(layout=None, mi=case["mi"], bundle=case["bundle"],
-                   output=case["output"], skip=False, start=start, end=end,
-                   via_search=case.get("via_search", False))
-        obs = run_default(world, cfg, case["processes"])
-        bad = judge(world, cfg, case["processes"], obs)
+        world = World(root, dict(A=case["a"], B=case["b"]), case["cover"])
+        _, bad, obs = one_input_case(
+            world, tuple(case[f] for f in CASE_FIELDS))
     else:
         cfg = case["cfg"]
         cfg["start"] = dt.datetime.fromisoformat(cfg["start"])
